@@ -199,6 +199,7 @@ def real_invalid_trials(kind, obj, dump, plants):
                     continue            # whether the value must be refused is C06's question, not this property's
                 where = "%s real invalid value %s (%s) %s" % (kind, label, type(raised).__name__, {True: "existing", False: "absent"}.get(existing, "existing, handed over as an open stream"))
                 if existing:
+                    check(os.path.exists(dest), "destination-removed-by-failed-dump", "%s: the destination is gone" % where)
                     with open(dest, "rb") as fo:
                         now = fo.read()
                     check(now == old, "destination-changed-by-failed-dump", lambda: "%s: destination had %d bytes, now %d" % (where, len(old), len(now)))
